@@ -130,6 +130,7 @@ func edgeScalars(q *big.Int) []*big.Int {
 }
 
 func runC01(c *kc.Ctx) {
+	defer reportHungProbes(c)
 	c.SetRule("law cases: (group, a, b, P, Q, R) with edge-biased scalars and points from generator multiples / Pick / Embed / Hash / pairing outputs, every identity of C01 evaluated through two API paths; non-trivial = P,Q,R not all identity and a,b not both in {0,1}; program cases: random straight-line programs (≤ N statements) compared byte-for-byte with the Lean model; distinct by canonical text")
 	c.Assume("field-element limb code, Montgomery assembly, math/big, crypto/elliptic, kilic, CIRCL, gnark arithmetic are compared with the model, not proved",
 		"G2, GT and the residue group have no byte-level Lean model yet: for them the identities are evaluated Go-to-Go only",
